@@ -92,13 +92,15 @@ def plan_stream(rng, cipher, mac, comp, role, suites, quick):
     return dict(cipher=cipher, mac=mac, comp=comp, role=role, lens=lens, rekey_at=rekey_at, epochs=epochs,
                 auth_at=auth_at, strict=strict, seq0=seq0, frag=frag,
                 partial=rng.random() < 0.2, compressible=rng.random() < 0.5,
+                banner=rng.random() < 0.15, rx_hiccups=rng.random() < 0.15, tx_hiccups=rng.random() < 0.1,
                 hash=rng.choice(pb.HASHES))
 
 
 def run_plan(rng, p):
     accept = (lambda n: rng.randint(1, n)) if p["partial"] else None
     b = pb.Bench(rng, p["cipher"], p["mac"], p["comp"], sender_role=p["role"], strict=p["strict"],
-                 hash_name=p["hash"], accept=accept, seq0=p["seq0"])
+                 hash_name=p["hash"], accept=accept, seq0=p["seq0"],
+                 hiccup=hiccups(rng, 0.3) if p["tx_hiccups"] else None)
     b.rekey()
     ep = 1
     for i, n in enumerate(p["lens"]):
@@ -115,6 +117,14 @@ def run_plan(rng, p):
         b.send(pb.rand_payload(rng, rng.randint(1, 80)))
         ep += 1
     return b
+
+
+def hiccups(rng, prob):
+    """socket.timeout / EAGAIN instead of a transfer, as a socket with a timeout set produces."""
+    return lambda kind: (rng.choice(["timeout", "eagain"]) if rng.random() < prob else None)
+
+
+BANNER = b"SSH-2.0-bench_0.1 threadless\r\n"
 
 
 def mode_of(cipher, mac):
@@ -141,8 +151,12 @@ def judge_stream(ctx, rng, p, b):
     maclen = 64
     frag, cuts = pb.frag_named(rng, p["frag"], b.boundaries(), maclen)
     rx = b.receiver()
-    outcome = rx.drain(wire, frag=frag, cuts=cuts)
+    outcome = rx.drain(wire, frag=frag, cuts=cuts, banner=BANNER if p["banner"] else None,
+                       hiccup=hiccups(rng, 0.3) if p["rx_hiccups"] else None)
     ctx.count("streams_decoded")
+    ctx.count("socket_hiccups_injected", rx.sock.hiccups + b.sock.hiccups)
+    if p["banner"]:
+        ctx.count("streams_with_banner_remainder")
     ctx.count("messages_sent", len(b.messages))
     ctx.count("messages_delivered", len(rx.delivered))
     ctx.count("key_switches_in_band", rx.next_epoch)
@@ -175,7 +189,7 @@ def judge_stream(ctx, rng, p, b):
         ctx.violation("receiver failed after the last message of an untampered stream: %s [%s]"
                       % (core.exc_signature(outcome[1]) if outcome[0] == "exc" else outcome[0], tag),
                       "all messages delivered but the receiver did not end waiting for data", wit)
-    elif rx.sock.pos != len(wire):
+    elif rx.sock.pos != len(wire) + (len(BANNER) if p["banner"] else 0):
         ctx.violation("receiver stopped before consuming the whole stream [%s]" % tag, "bytes left unread", wit)
 
     # AEAD invocation counter: +1 per packet on both sides (RFC 5647 7.1)
@@ -306,8 +320,8 @@ def run(ctx):
     combos = [(c, m, comp, role) for (c, m) in suites for comp in pb.COMPRESSIONS for role in ("client", "server")]
     ctx.note("suites_offered", len(suites))
     ctx.note("combinations", len(combos))
-    per_combo = ctx.pick(12, 500)
-    end = ctx.deadline(120, 900)
+    per_combo = ctx.pick(12, 200)
+    end = ctx.deadline(120, 600)
     import time
 
     for rep in range(per_combo):
@@ -319,7 +333,7 @@ def run(ctx):
                 break
             p = plan_stream(rng, c, m, comp, role, suites, ctx.quick)
             fp = (c, m, comp, role, p["strict"], tuple(p["lens"]), tuple(p["rekey_at"]), tuple(p["epochs"]),
-                  p["auth_at"], p["seq0"], p["frag"], p["partial"], p["hash"])
+                  p["auth_at"], p["seq0"], p["frag"], p["partial"], p["hash"], p["banner"], p["rx_hiccups"], p["tx_hiccups"])
             ctx.case(fp, sample=describe(p) if (rep == 0 and i < 24) else None)
             ctx.count("combo_%s_comp_%s" % (mode_of(c, m), "on" if comp != "none" else "off"))
             try:
@@ -343,5 +357,7 @@ def run(ctx):
     ctx.require("key_switches_in_band", 500)
     ctx.require("aead_counter_steps_seen", 200)
     ctx.require("ref_streams_decoded", 400)
+    ctx.require("streams_with_banner_remainder", 50)
+    ctx.require("socket_hiccups_injected", 500)
     ctx.require("fullstack_sessions_compared", 4)
     ctx.require("fullstack_rekeys", 4)
